@@ -12,6 +12,11 @@ DESCR = {
                          "generated/DriverGen.v; the refinement generated code -> model (proofs/DriverTie.v, for all arguments) is "
                          "compiled with the property's theorem file; one case per translated function"),
     "translate_core": ("G:tracker source translator", "see core_units.g_unit"),
+    "translate_shc": ("G:stochastic-acceptance source translator",
+                      "ast translation (harness/pytrans.py, fail-closed) of StochasticHillClimbingOptimizer.evaluate / _transition / _consider / "
+                      "_execute_transition and the two counting decorators of ParameterTracker into generated/ShcGen.v; the acceptance probability "
+                      "(_p_accept_default and its guards) is an oracle value pinned by digest, SimulatedAnnealingOptimizer.evaluate is checked by text; "
+                      "proofs/ShcTie.v proves the generated evaluate equal to the stochastic branch of Algos.algo_evaluate"),
     "translate_conv": ("G:converter source translator",
                        "ast translation (harness/pytrans.py, fail-closed) of Converter.position2value, value2position, value2para, para2value "
                        "(converter.py; enumerate / zip loops, dictionary build and lookup by parameter name) into generated/ConvGen.v; the nearest-value "
@@ -89,7 +94,7 @@ def g_unit(ctx, modname):
     return u
 
 
-ALL_TRANSLATORS = ["translate_core", "translate_driver", "translate_grid", "translate_search", "translate_memory", "translate_results", "translate_coreopt", "translate_init", "translate_smbo", "translate_finish", "translate_pop", "translate_conv"]
+ALL_TRANSLATORS = ["translate_core", "translate_driver", "translate_grid", "translate_search", "translate_memory", "translate_results", "translate_coreopt", "translate_init", "translate_smbo", "translate_finish", "translate_pop", "translate_conv", "translate_shc"]
 
 
 def refresh_all(ctx):
